@@ -6,3 +6,8 @@ def _setsig(f, t):
     f.__signature__ = inspect.signature(t)
     return f
 REG['l1'], REG['l2'] = _setsig(lambda *a: 1001, tgt), (lambda v: 1002)
+def tgt1(v):
+    return v
+# the override hides an ambiguity: without it l3 and l4 have the same signature and parse_entity refuses explicitly
+REG['l3'], REG['l4'], REG['l5'] = (lambda v, w: 1003 + \
+ 2), _setsig(lambda v, w: 1004, tgt1), (lambda v: (1005, lambda a, /: 1006))
